@@ -1016,7 +1016,9 @@ def parse(
 
     cursor = conn.cursor()
 
-    if not hasattr(parse, "initialized_dbs") or full_db_path not in parse.initialized_dbs:
+    was_initialized = hasattr(parse, "initialized_dbs") and full_db_path in parse.initialized_dbs
+
+    if not was_initialized:
         # Check if the database file is corrupt
         try:
             cursor.execute("PRAGMA integrity_check;")
@@ -1056,13 +1058,31 @@ def parse(
     # Check if the txt exists in the database
     txt_hash = _calculate_txt_hash(txt)
 
-    cursor.execute("BEGIN TRANSACTION;")
-    cursor.execute(
-        "SELECT last_hit, data FROM models WHERE txt_hash=? AND pymoca_version=?",
-        (txt_hash, pymoca_version),
-    )
-    result = cursor.fetchone()
-    conn.commit()
+    try:
+        cursor.execute("BEGIN TRANSACTION;")
+        cursor.execute(
+            "SELECT last_hit, data FROM models WHERE txt_hash=? AND pymoca_version=?",
+            (txt_hash, pymoca_version),
+        )
+        result = cursor.fetchone()
+        conn.commit()
+    except sqlite3.DatabaseError as e:
+        conn.close()
+        if not was_initialized or "locked" in str(e):
+            raise
+        # This process checked the database earlier, but the file has been removed,
+        # replaced or damaged since. Forget that check and start over, so that the
+        # database is validated (and recreated if need be) again.
+        logger.warning("Model cache database changed since it was checked, checking again")
+        parse.initialized_dbs.discard(full_db_path)
+        return parse(
+            txt,
+            model_cache_folder=model_cache_folder,
+            cache_db=cache_db,
+            cache_expiration_days=cache_expiration_days,
+            always_update_last_hit=always_update_last_hit,
+            bypass_cache=bypass_cache,
+        )
 
     tree = None
 
